@@ -20,6 +20,8 @@ CONSTANTS Ctx <- McCtxTerm
  BGL = {}
  BoxFrom = {}
  BoxTo = {}
+ BoxSeqs = {}
+ SpendFrom = {}
  RewFrom = {"F"}
  RewTerms = {0}
  RewAmt = {500}
